@@ -163,11 +163,11 @@ def c09Step (s : C09State) (req : List Sx) : C09State × String :=
     | _, _, _, _ => (s, "bad-request")
   | [.list [.atom "intersect", a, b]] =>
     match a.asNat, b.asNat with
-    | some a, some b => (s, renderTRes T (intersect relFuel narrowFuel T a b))
+    | some a, some b => (s, renderTRes T (intersect Variant.current relFuel narrowFuel T a b))
     | _, _ => (s, "bad-request")
   | [.list [.atom "complement", a, b]] =>
     match a.asNat, b.asNat with
-    | some a, some b => (s, renderTRes T (complement relFuel narrowFuel T a b))
+    | some a, some b => (s, renderTRes T (complement Variant.current relFuel narrowFuel T a b))
     | _, _ => (s, "bad-request")
   | [.list (.atom "union" :: ids)] =>
     match natArgs ids with
